@@ -34,13 +34,13 @@ def gen_plan(rng, tier, config, opts):
         name, pc = OPS[rng.below(len(OPS))]
         curve = 'BN_P256' if (pc or rng.chance(0.35)) else rng.choice(CURVES)
         lines.append('CURVE ' + curve)
-        size = rng.choice(SIZES + (['full', 'full', 'edge', 'edge', 'over', 'big'] if capacity else []))
+        size = rng.choice(SIZES + (['full', 'full', 'edge', 'edge', 'over', 'big', 'cap', 'cap', 'cap1'] if capacity else []))
         if name.startswith(SCALAR_OPS) and rng.chance(0.5):
             size = rng.choice(SCALAR_SIZES)
         if not capacity and (name.startswith('bn_mul') or name.startswith('bn_sqr') or name in ('bn_lcm',)):
             if size == 'full':
                 size = 'big'
-        if name in SMALL_ONLY and size in ('edge', 'over'):
+        if name in SMALL_ONLY and size in ('edge', 'over', 'cap', 'cap1'):
             size = 'full'
         maxk = 16 if tier == 'quick' else 1500
         ln = 'OP %s seed=%s size=%s fail=%s max=%d pick=%d fill=%d,%d' % (
